@@ -2,3 +2,4 @@
 import BA.Prelude
 import BA.Generated.Constants
 import BA.Model.Paych
+import BA.Model.Market
